@@ -455,6 +455,10 @@ set_isub(Bucket* self, PyObject* other)
     else {
         iter = PyObject_GetIter(other);
         if (iter == NULL) {
+            if (!PyErr_ExceptionMatches(PyExc_TypeError)) {
+                /* not "other is not iterable" but a real failure */
+                goto err;
+            }
             PyErr_Clear();
             Py_INCREF(Py_NotImplemented);
             return Py_NotImplemented;
@@ -531,6 +535,10 @@ set_ixor(Bucket* self, PyObject* other)
     else {
         iter = PyObject_GetIter(other);
         if (iter == NULL) {
+            if (!PyErr_ExceptionMatches(PyExc_TypeError)) {
+                /* not "other is not iterable" but a real failure */
+                goto err;
+            }
             PyErr_Clear();
             Py_INCREF(Py_NotImplemented);
             return Py_NotImplemented;
@@ -615,6 +623,11 @@ set_iand(Bucket* self, PyObject* other)
 
     iter = PyObject_GetIter(other);
     if (iter == NULL) {
+        if (!PyErr_ExceptionMatches(PyExc_TypeError)) {
+            /* not "other is not iterable" but a real failure */
+            Py_DECREF(tmp_list);
+            return NULL;
+        }
         PyErr_Clear();
         Py_INCREF(Py_NotImplemented);
         return Py_NotImplemented;
